@@ -95,6 +95,14 @@ Theorem C14_non_reference :
 Proof. exact begin_other. Qed.
 Print Assumptions C14_non_reference.
 
+(* whatever follows '&' and however it is split: no panic site is reached, the
+   steps suffice, the result is Done *)
+Theorem C14_total :
+  forall T, table_ok T -> forall in_attr chunks,
+  exists chars, o_status (cr_feed T (cr_new in_attr) chunks [] false) = CrDone chars.
+Proof. exact cr_total. Qed.
+Print Assumptions C14_total.
+
 (* non-vacuity: the model on the generated table does what the statement is about.
    "&notit;" -> U+00AC then "it;" ; attribute "&not=" -> untouched ; "&#x80;" -> U+20AC ;
    "&#4294967361;" (2^32 + 65, wraps to 65) -> U+FFFD ; "&NotEqualTilde;" -> two code points *)
